@@ -155,6 +155,20 @@ def _nsmallest(I, args, kw):
     return VSeq(r.arr, z3.simplify(k), r.et, "list")
 
 
+def _nlargest(I, args, kw):
+    """heapq.nlargest(n, xs, key=None): documented as equivalent to sorted(xs, key=key, reverse=True)[:n]
+    (trusted sorted() model: stable permutation, descending keys, ties keep their original order)"""
+    n = to_int(I.force(args[0]))
+    h = I.force(args[1])
+    if isinstance(h, B.VEmptyList):
+        return h
+    if not isinstance(h, VSeq):
+        h = B.to_seq(I, h)
+    r = B.sort_seq(I, VSeq(h.arr, h.n, h.et, "list"), kw.get("key"), reverse=True)
+    k = z3.If(n < 0, 0, z3.If(n > r.n, r.n, n))
+    return VSeq(r.arr, z3.simplify(k), r.et, "list")
+
+
 def _heapify(I, args, kw):
     """heapq.heapify(h): rearranges h in place into heap order -- a no-op in the multiset model (the layout of the
     list is never observed except through heappop / nsmallest / len)"""
@@ -529,6 +543,7 @@ TABLE = {
     ("heapq", "heappush"): _heappush,
     ("heapq", "heappop"): _heappop,
     ("heapq", "nsmallest"): _nsmallest,
+    ("heapq", "nlargest"): _nlargest,
     ("heapq", "heapify"): _heapify,
     ("numpy", "stack"): _np_stack,
     ("numpy", "mean"): _np_mean,
